@@ -574,6 +574,8 @@ def buffer_contracts(m: HdlcModel):
             seen_roles.add(role)
             inst = BUF_INSTANCE.get(role, role)
             v = B.check(name, role, m.flag if role == "trim-needle" else None)
+            if v.ok is True and role == "trim-pos" and (v.info or {}).get("not_released"):
+                res.append(Result("bad", "release", "trim-keeps-consumed", f"{name}() can return without dropping the consumed octets from the buffer: the retained input is not bounded by the unconsumed tail", v.line or 0))
             if v.ok is True:
                 res.append(Result("ok", "buffer", inst, f"{name}(): {BUF_TEXT.get(role, role)}"))
             elif v.ok is False:
